@@ -17,7 +17,7 @@ RULE = ("every mutating public call (create_track, update, the 24 single-field s
         "the call issues >= 2 statements, so that a position k >= 2 exists; distinct by (schema, call, k)")
 
 MUTATING = {"create_track", "update", "set", "set_at", "remove_track", "create_root_crate", "create_root_crate_after",
-            "create_sub_crate", "create_sub_crate_after", "set_name", "set_parent", "remove_crate", "add_track",
+            "create_sub_crate", "create_sub_crate_after", "set_name", "set_parent", "remove_crate", "add_track", "add_track_via_id",
             "remove_track_from", "clear_tracks"}
 CODES = {"quick": [13], "thorough": [13, 10, 5, 19]}
 
